@@ -136,11 +136,17 @@ func makeGen(rnd *hx.Rand, version, prop string) genFunc {
 		switch rnd.Pick(w...) {
 		case 0:
 			d := 1 + rnd.Intn(40)
-			switch rnd.Pick(6, 3, 1) {
+			switch rnd.Pick(6, 3, 1, 2) {
 			case 1:
 				d = 50 + rnd.Intn(60)
 			case 2:
 				d = int(leaseSecs) + 1 + rnd.Intn(60)
+			case 3:
+				// exactly to the end of some client's lease (still valid), or one second beyond
+				c := pickClient()
+				if left := leaseSecs - (r.now - c.lastRenew); c.renewed && left > 0 {
+					d = int(left) + rnd.Intn(2)
+				}
 			}
 			// non-triviality bookkeeping
 			for _, s := range opens {
@@ -282,18 +288,14 @@ func makeGen(rnd *hx.Rand, version, prop string) genFunc {
 				c := pickClient()
 				return fmt.Sprintf("rlo %d %d %d", c.long, c.ver, rnd.Intn(3))
 			}
-			// FREE_STATEID of a lock state that holds no lock (the other case is a known finding)
+			// FREE_STATEID of a lock state: mostly one that holds no lock (freed), sometimes one that does (LOCKS_HELD)
 			for _, s := range locks {
 				held := false
 				if orc := r.oracle[s.leaf]; orc != nil {
 					held = len(orc.held[ownerID{s.c.modelID, s.key}]) > 0 || orc.top[ownerID{s.c.modelID, s.key}] != 0
 				}
-				if !held && rnd.Chance(1, 2) {
-					opt := maybeBad()
-					if strings.Contains(opt, "as=") {
-						opt = "" // may resolve to a lock state of the other client that holds locks
-					}
-					return fmt.Sprintf("free %d%s", s.req, opt)
+				if (!held && rnd.Chance(1, 2)) || (held && rnd.Chance(1, 6)) {
+					return fmt.Sprintf("free %d%s", s.req, maybeBad())
 				}
 			}
 			if len(opens) > 0 && rnd.Chance(1, 3) {
